@@ -29,8 +29,10 @@ import (
 	"regexp"
 	"sort"
 	"strings"
+	"sync"
 	"sync/atomic"
 	"testing"
+	"time"
 
 	"verif/engine/enum"
 	"verif/engine/rep"
@@ -1078,6 +1080,95 @@ func (k *checker) hookPhase(cfg config, hw *world) {
 	}
 }
 
+// concurrentPhase: two get-entries requests in flight at once on one front end. The first one's backend read is held
+// open while the second is issued (ranges chosen so that their decimal spellings collide when run together, plus
+// ordinary ones); each answer must hold the stored entries of ITS OWN range, beginning at its start. The hold is a
+// scheduling aid only (the second request gets half a second of real time to reach the backend or finish): no oracle
+// depends on it.
+func (k *checker) concurrentPhase(cfg config, w *world) {
+	x := w.get()
+	defer w.put(x)
+	ranges := [][2]int64{{1, 112}, {11, 12}, {2, 345}, {23, 45}, {5, 560}, {55, 60}, {0, 0}, {10, 11}, {101, 1011}, {1, 10}, {110, 11}, {0, 999}, {1000, 1999}}
+	var valid [][2]int64
+	for _, r := range ranges {
+		if r[0] <= r[1] && r[0] < int64(w.size) {
+			valid = append(valid, r)
+		}
+	}
+	judge := func(who string, r [2]int64, rsp fe.Resp, other [2]int64) {
+		c := rcase{num(bi(r[0])), num(bi(r[1])), true}
+		lib := fmt.Sprintf("HTTP %d %s", rsp.Status, short(rsp.Body))
+		d := k.desc(cfg, w, c, "http, "+who+fmt.Sprintf(" while get-entries(%d,%d) was in flight on the same front end", other[0], other[1]), "", lib, fmt.Sprintf("200 with stored entries %d, %d, ...", r[0], r[0]+1))
+		if rsp.Status != 200 {
+			k.viol("concurrent get-entries: a valid range is not answered 200", fmt.Sprintf("%s tree=%d [%d,%d]: %s", cfg, w.size, r[0], r[1], lib), d)
+			return
+		}
+		got, err := parseEntries(rsp.Body)
+		if err != nil || len(got) == 0 || int64(len(got)) > r[1]-r[0]+1 {
+			k.viol("concurrent get-entries: answer does not hold between one and end-start+1 entries", fmt.Sprintf("%s tree=%d [%d,%d]: %d entries, err=%v", cfg, w.size, r[0], r[1], len(got), err), d)
+			return
+		}
+		for i := range got {
+			st := w.stored[int(r[0])+i]
+			if !bytes.Equal(got[i].leaf, st.leaf) || !bytes.Equal(got[i].extra, st.extra) {
+				k.viol("concurrent get-entries: an answer holds entries of another range", fmt.Sprintf("%s tree=%d [%d,%d]: entry %d of the answer is not stored entry %d", cfg, w.size, r[0], r[1], i, int(r[0])+i), d)
+				return
+			}
+		}
+	}
+	for _, a := range valid {
+		for _, b := range valid {
+			if a == b {
+				continue
+			}
+			k.r.Eval(1)
+			k.r.Nontrivial(fmt.Sprintf("conc|%s|%v|%v", cfg, a, b))
+			entered, release := make(chan struct{}), make(chan struct{})
+			var once sync.Once
+			x.rec.Log.SetHook(func(method string, req proto.Message, next func() (proto.Message, error)) (proto.Message, error) {
+				if method == "GetLeavesByRange" && req.(*trillian.GetLeavesByRangeRequest).StartIndex == a[0] {
+					held := false
+					once.Do(func() { held = true })
+					if held {
+						close(entered)
+						<-release
+					}
+				}
+				return next()
+			})
+			var ra, rb fe.Resp
+			var wg sync.WaitGroup
+			wg.Add(1)
+			doneA := make(chan struct{})
+			go func() {
+				defer wg.Done()
+				defer close(doneA)
+				ra = x.f.Get(getEntriesPath, "start", fmt.Sprint(a[0]), "end", fmt.Sprint(a[1]))
+			}()
+			select {
+			case <-entered:
+			case <-doneA: // (answered without a backend read: judged below like any answer)
+			}
+			doneB := make(chan struct{})
+			go func() {
+				rb = x.f.Get(getEntriesPath, "start", fmt.Sprint(b[0]), "end", fmt.Sprint(b[1]))
+				close(doneB)
+			}()
+			select {
+			case <-doneB:
+			case <-time.After(500 * time.Millisecond):
+			}
+			close(release)
+			wg.Wait()
+			<-doneB
+			x.rec.Log.SetHook(nil)
+			x.rec.take()
+			judge("first request", a, ra, b)
+			judge("second request", b, rb, a)
+		}
+	}
+}
+
 // ---------------------------------------------------------------------------
 
 func TestCheck(t *testing.T) {
@@ -1243,6 +1334,9 @@ func TestCheck(t *testing.T) {
 				}
 			}
 			if !capped {
+				if big := worlds[int(2*m+1)]; big != nil && m >= 100 {
+					k.concurrentPhase(cfg, big)
+				}
 				k.hookPhase(cfg, hookWorld)
 				k.disconnectPhase(cfg, worlds[5])
 			}
